@@ -4,6 +4,7 @@
 //!   {"scenario": "...", "ok": true|false, "detail": "...", "trace": [...]}
 //! A scenario that fails on the current /repo tree is a concrete failing schedule for the obligation
 //! whose label family it is registered under (replay/driver.py).
+mod explore;
 use rsactor::{spawn, spawn_with_mailbox_capacity, Actor, ActorRef, ActorResult, ActorWeak, Message};
 use std::collections::VecDeque;
 use std::sync::{Arc, Mutex};
@@ -402,6 +403,19 @@ async fn metrics_counts() -> Out {
 
 fn main() {
     let which: Vec<String> = std::env::args().skip(1).collect();
+    if which.first().map(|s| s.as_str()) == Some("explore") {
+        let seed: u64 = which.get(1).and_then(|x| x.parse().ok()).unwrap_or(1);
+        let n: usize = which.get(2).and_then(|x| x.parse().ok()).unwrap_or(2000);
+        let (total, bad) = explore::explore(seed, n);
+        let esc = |s: &str| s.replace('\\', "\\\\").replace('"', "\\\"");
+        println!("{{\"explored\": {}, \"violating\": {}}}", total, bad.len());
+        for (sc, vd) in bad {
+            let tr: Vec<String> = vd.trace.iter().map(|s| format!("\"{}\"", esc(s))).collect();
+            let vs: Vec<String> = vd.violations.iter().map(|s| format!("\"{}\"", esc(s))).collect();
+            println!("{{\"scenario\": \"{}\", \"ok\": false, \"violations\": [{}], \"trace\": [{}]}}", esc(&format!("{sc:?}")), vs.join(", "), tr.join(", "));
+        }
+        return;
+    }
     let want = |n: &str| which.is_empty() || which.iter().any(|w| w == n);
     let rt = || tokio::runtime::Builder::new_current_thread().enable_all().start_paused(true).build().unwrap();
     if want("lifecycle_basic") { emit(rt().block_on(lifecycle_basic())); }
